@@ -1,10 +1,23 @@
 PROP = dict(
         pkg="c11", level="fuzzing",
-        rule="C11: mutated encodings / hostile literals x reader options through named readers and auto-detection; mutated query text through parse+semantic+optimize",
-        assumptions=[],
-        level_text="placeholder",
-        level_note="placeholder",
-        technique="structure-aware mutation fuzzing with rapid (replayable cases) + native go test -fuzz targets over the same oracle (thorough)",
-        tests=[dict(name="TestBytes", quick=(8, 100), thorough=(16, 2000)),
-               dict(name="TestQuery", quick=(8, 100), thorough=(16, 2000))],
+        rule="C11: (a) mutated valid encodings / repo test inputs / hostile literals x reader options, read through the named reader and through auto-detection under a six-clause oracle "
+             "(no panic, bounded values, bounded allocation, Validate => walker-consistent, consumers do not panic, no goroutine left); (b) mutated query programs through parse + semantic analysis + optimizer; "
+             "(c) deterministic replay of /verif/corpus/C11 and /verif/replays/C11; (d) thorough tier: native go test -fuzz on five targets over the same oracle",
+        assumptions=[
+            "a panic on a goroutine of the code under test (threaded ZNG scanner, VNG metadata reader) or a Go fatal error kills the worker process; the driver then reports the breadcrumb case with signature `crash`. "
+            "To keep such root causes attributable every configuration is first run with the synchronous scanner (Threads=1) on the test goroutine, VNG metadata sections are pre-decoded synchronously, "
+            "and type values inside VNG metadata are pre-decoded with Context.DecodeTypeValue; the threaded run only follows when these did not panic",
+            "hangs are detected by vt's no-progress watchdog (90 s + 20 s inside one call into the repo); slowness below that is not judged. Algorithmic blow-ups are only visible through the allocation clause",
+            "allocation is measured as runtime.MemStats.TotalAlloc delta of the whole process around one read of the input (harness copies of handed-out values subtracted); bound 64 MiB + 8*(len(input) + threads*Max)",
+            "VNG objects that declare a segment > 32 MiB or container lengths summing to > 2^21 are not given to the reader while finding C11-vng-alloc is open (a hit is a multi-GiB allocation or an hours-long loop, not a clean failure); they are counted under that finding",
+            "native fuzzing is not reproducible from a seed; its crashers are saved as replay cases and replayed deterministically afterwards",
+        ],
+        level_text="Fuzzing: structure-aware mutation of valid encodings produced by the repo's own writers (plus repo test inputs and hostile literals), drawn by rapid so that every case is a replayable JSON file; "
+                   "thorough tier adds coverage-guided native Go fuzzing of the same oracle function. The input space (all byte strings x options, all query strings) is sampled, not exhausted.",
+        level_note="Trusted: the harness's independent structural walker (verif/oracle/walker.go; every generated value must pass it, else the harness aborts), Go's runtime accounting (TotalAlloc, goroutine dumps). "
+                   "Not covered: arrows/parquet readers beyond what auto-detection executes on non-parquet bytes; query *execution* (only compilation is in the property); the service load endpoint as such (its reader path is the non-seekable auto-detection exercised here).",
+        technique="structure-aware mutation fuzzing with rapid (replayable cases, root-cause signatures, known-finding neutralisation) + native go test -fuzz targets FuzzAny/FuzzZNG/FuzzVNG/FuzzZSON/FuzzCompile over the same oracle",
+        tests=[dict(name="TestBytes", quick=(8, 1200), thorough=(16, 12000)),
+               dict(name="TestQuery", quick=(4, 1500), thorough=(8, 15000)),
+               dict(name="TestNativeFuzz", quick=(1, 1), thorough=(5, 1), shrinktime="1s")],
 )
